@@ -28,6 +28,7 @@
     the Sched model computes (E-cell). *)
 From Coq Require Import ZArith List Bool.
 From TM Require Import Master.Publish Master.PublishP Gen.Tables.
+From TM Require Import Base.ShapeCanon.
 Import ListNotations.
 Open Scope Z_scope.
 
@@ -115,3 +116,10 @@ Example C09_nonvacuous :
   flat_store (model_entries ex_info ex_tuples) =
     [4; 10; 2; -1; -1; 1; 300; 10; 5; -1; -1; 1; 100; 11; 1; -1; -1; 1; 200; 11; 3; -1; -1; 1; 200].
 Proof. vm_compute. repeat split. Qed.
+
+(** the functions named by this property's anchors still have the statement skeleton the model was written from
+    (re-extracted from the Python AST on every run, harness/tables_shape.py + harness/shape_pins.json; kept last so that
+    a difference does not stop the theorems above from being checked) *)
+Theorem C09_anchor_shape : shapes_ok_C09 = true.
+Proof. vm_compute. reflexivity. Qed.
+Print Assumptions C09_anchor_shape.
